@@ -1198,10 +1198,155 @@ theorem parseDocument_df (allowDtd : Bool) :
 
 end df
 
+/-! ### The final check and the theorem -/
+
+open Rox.Api in
+/-- `children()` of the root (as `children_init`, without a bound on the arena size: the first
+child of node 0 is node 1). -/
+theorem children_init_root (d : Doc) (h : LinkWF d.nodes) :
+    ∃ it, children d 0 = .ok it ∧ Reach d.nodes 0 it ∧
+      absIt d.nodes 0 it = kidsIn d.nodes 0 0 (d.nodes.size - 1) := by
+  have hi : 0 < d.nodes.size := h.nonempty
+  have hn : d.nodes[0]? = some d.nodes[0] := by simp [hi]
+  have hPL := h.parentLt
+  have hbefore : ∀ k, k ≤ 0 → (par d.nodes k == some 0) = false := by
+    intro k hk
+    cases hp : par d.nodes k with
+    | none => simp
+    | some q => have := hPL k q hp; simp; omega
+  cases hl : d.nodes[0].lastChild with
+  | none =>
+    refine ⟨⟨none, none⟩, ?_, Reach.done, ?_⟩
+    · simp [children, firstChild, lastChild, getNodeUnwrap, hn, hl, follow]
+    · have hlc : lastCh d.nodes 0 = none := by simp [Spec.lastCh, hi, hl]
+      rw [h.last 0 hi] at hlc
+      unfold lastChildSpec at hlc
+      rw [find_rev_range_none] at hlc
+      simp only [absIt]
+      symm
+      unfold kidsIn
+      rw [List.filter_eq_nil_iff]
+      intro k hk
+      rw [List.mem_range'] at hk
+      obtain ⟨m, hm, rfl⟩ := hk
+      have := hlc (0 + 1 * m) (by omega)
+      simpa using this
+  | some l =>
+    have hlc : lastCh d.nodes 0 = some l := by simp [Spec.lastCh, hi, hl]
+    obtain ⟨hp1, h1l, hll, hpl, hafter⟩ := first_child_is_next h 0 l hi hlc
+    refine ⟨⟨some (0 + 1), some l⟩, ?_, Reach.live (0 + 1) l hp1 hpl h1l hll, ?_⟩
+    · have h3 : 0 + 1 < d.nodes.size := by omega
+      have h3' : 1 < d.nodes.size := by omega
+      simp [children, firstChild, lastChild, getNodeUnwrap, hn, hl, follow, nodeIdNew, h3', hll]
+    · simp only [absIt]
+      rw [kidsIn_skip d.nodes 0 0 (0 + 1) (d.nodes.size - 1) (by omega) (by omega)
+            (fun k _ hk2 => hbefore k (by omega))]
+      symm
+      apply kidsIn_shrink d.nodes 0 (0 + 1) (d.nodes.size - 1) l (by omega)
+      intro k hk1 hk2
+      exact hafter k hk1 (by omega)
+
+open Rox.Api in
+theorem findElement_some (d : Doc) : ∀ (l : List Nat) (r : Nat), findElement d l = .ok (some r) →
+    r ∈ l ∧ kindIs d.nodes r Kind.isElement = true := by
+  intro l
+  induction l with
+  | nil => intro r h; simp [findElement] at h
+  | cons j js ih =>
+    intro r h
+    simp only [findElement, isElement, kindOf, getNodeUnwrap] at h
+    cases hj : d.nodes[j]? with
+    | none => rw [hj] at h; simp at h
+    | some nd =>
+      rw [hj] at h
+      simp only [Res.bind_ok, Res.pure_eq] at h
+      split at h
+      · rename_i he
+        simp only [Res.ok.injEq, Option.some.injEq] at h
+        subst h
+        exact ⟨by simp, by simp [kindIs, hj, he]⟩
+      · obtain ⟨h1, h2⟩ := ih r h
+        exact ⟨by simp [h1], h2⟩
+
+/-- `finish` only lets documents through whose root has an Element child. -/
+theorem rootHasElement_true (d : Doc) (h : LinkWF d.nodes) (hr : rootHasElement d = .ok true) :
+    1 ≤ elemCount d.nodes := by
+  obtain ⟨it, hc, hre, habs⟩ := children_init_root d h
+  have hsz : 0 < d.nodes.size := h.nonempty
+  unfold rootHasElement at hr
+  simp only [hc, Res.bind_ok] at hr
+  have hlen : (absIt d.nodes 0 it).length < Api.fuelN d := by
+    rw [habs]
+    have := kidsIn_length d.nodes 0 0 (d.nodes.size - 1)
+    unfold Api.fuelN; omega
+  rw [childrenList_safe d h 0 _ it hre hlen] at hr
+  simp only [Res.bind_ok] at hr
+  rw [Res.bind_eq_ok] at hr
+  obtain ⟨e, he, hr⟩ := hr
+  simp only [pure, Res.ok.injEq] at hr
+  cases e with
+  | none => simp at hr
+  | some r =>
+    obtain ⟨hmem, hk⟩ := findElement_some d _ r he
+    rw [habs] at hmem
+    unfold kidsIn at hmem
+    obtain ⟨hm1, hm2⟩ := List.mem_filter.mp hmem
+    rw [List.mem_range'_1] at hm1
+    have hrk : r ∈ rootKids d.nodes := by
+      unfold rootKids
+      exact List.mem_filter.mpr ⟨List.mem_range.mpr (by omega), hm2⟩
+    unfold elemCount
+    exact List.length_pos_of_mem (List.mem_filter.mpr ⟨hrk, hk⟩)
+
+theorem parseCtx_singleRoot (T : Tables) (txt : Bytes) (d : Nat) (opt : Opt) (c : Ctx)
+    (h : parseCtx T txt d opt = .ok c) : singleRootB c.doc.nodes = true := by
+  unfold parseCtx at h
+  rw [Res.bind_eq_ok] at h
+  obtain ⟨c0, h0, h⟩ := h
+  try dsimp only at h
+  rw [Res.bind_eq_ok] at h
+  obtain ⟨c1, h1, h⟩ := h
+  have hb0 := binv_init txt opt c0 h0
+  have hi0 : DInv c0 ∧ TopInv (0, false) c0 := by
+    unfold initCtx at h0
+    rw [Res.bind_eq_ok] at h0
+    obtain ⟨ns, _, h0⟩ := h0
+    res_norm at h0
+    subst h0
+    refine ⟨⟨0, rfl, rfl⟩, rfl, ?_, ?_, ?_⟩ <;>
+      simp [elemCount, noTextKid, rootKids, Spec.par, rootNode, List.range_succ]
+  obtain ⟨_, hfeed⟩ := runTokens_feed _ _ _ _ _ h1
+  obtain ⟨ste, hrun, _⟩ := parseDocument_df T txt opt.allowDtd
+  have ht1 : TopInv ste c1 :=
+    top_feed _ (binv_token T txt d) (stepSpec_token T txt d) _ _ ste _ _ hrun hb0 hi0.1 hi0.2 hfeed
+  have hb1 : BInv c1 := binv_runTokens _ (binv_token T txt d) _ _ _ _ hb0 h1
+  unfold finish at h
+  rw [Res.bind_eq_ok] at h
+  obtain ⟨has, hhas, h⟩ := h
+  split at h
+  · simp at h
+  · rename_i hh
+    have : has = true := by simpa using hh
+    subst this
+    split at h
+    · simp at h
+    · res_norm at h; subst h
+      have hge := rootHasElement_true c1.doc hb1.wf hhas
+      obtain ⟨_, hle, _, hnt⟩ := ht1
+      show singleRootB c1.doc.nodes = true
+      rw [singleRootB_eq, hnt]
+      have : elemCount c1.doc.nodes = 1 := by omega
+      simp [this]
+
 /-- **Single root element** (all inputs, all options): among the children of node 0 there is
 exactly one Element and no Text. -/
 theorem parse_singleRoot (T : Tables) (txt : Bytes) (opt : Opt) (d : Doc)
     (h : parse T txt opt = .ok d) : singleRootB d.nodes = true := by
-  sorry
+  unfold parse at h
+  rw [Res.bind_eq_ok] at h
+  obtain ⟨c, hc, h⟩ := h
+  res_norm at h
+  subst h
+  exact parseCtx_singleRoot T txt _ opt c hc
 
 end Rox.Lemmas
